@@ -28,6 +28,7 @@ import VaxisModel.Lemmas.GoInterp
 import VaxisModel.Lemmas.KeyBodyEvalString
 import VaxisModel.Lemmas.KeyBodyEvalDecode
 import VaxisModel.Lemmas.KeyBodyEvalMatch
+import VaxisModel.Lemmas.KeyBodyEvalMatches
 
 namespace VaxisModel.Props.C09Body
 open VaxisModel.Model.GoBody VaxisModel.Model.GoInterp VaxisModel.Model.Key VaxisModel.Model.KeyBody
@@ -119,6 +120,17 @@ theorem matches_body_variadic_2 (u : Uni) (k : Key) (key : Int) (m1 m2 : Nat) :
 /-- The one-argument case is `matches_body_eq_model`. -/
 theorem matches_body_variadic_1 (u : Uni) (k : Key) (key : Int) (m : Nat) :
     matchesGenL u k key [m] = some («matches» u k key m) := matches_body_eq_model u k key m
+
+/-- **matches_body_variadic.** `k.Matches(key, ms...)` for a variadic list of ANY length is the model with the
+    mask `ms.foldl (· ||| ·) 0`: the `for _, mod := range modifiers { mods |= mod }` loop of the extracted body
+    ORs the arguments (induction on the list; the environment after the loop has a length that depends on
+    `ms`, so the six rules are evaluated over an abstract environment, `Lemmas/KeyBodyEvalMatches.lean`). -/
+theorem matches_body_variadic (u : Uni) (k : Key) (key : Int) (ms : List Nat) :
+    matchesGenL u k key ms = some («matches» u k key (ms.foldl (· ||| ·) 0)) :=
+  VaxisModel.Lemmas.KeyBodyEval.matches_body_variadic_eq u k key ms
+
+example : matchesGenL VaxisModel.Props.C09Body.exUni { keycode := 97, mods := 7 } 97 [1, 2, 4] = some true := by
+  rw [matches_body_variadic]; decide +kernel
 
 /-- **string_body_eq_model.** Running the body of `Key.String` as extracted from key.go on this run
     (the six modifier prefixes, the switch on the key code, the loop over `keyNames`) gives, for every
